@@ -198,6 +198,80 @@ def _walk_cov(item):
     return (len(want), len(got), sorted(want) == got)
 
 
+def _printast(item):
+    """`p8tool printast`: the printed tree must show every token stored in the tree, in full (kind and spelling), in
+    the order of a depth-first walk"""
+    name, src, tmp = item
+    import io
+    import os
+    import re
+    import tempfile
+    import shutil
+    from pico8 import tool, util
+    from pico8.lua import lua, lexer, parser
+    if any(c >= 128 or (c < 32 and c not in (9, 10)) for c in src) or re.search(rb'(^|\n)__\w+__\n', src):
+        return None
+    try:
+        L = lua.Lua.from_lines([src if src.endswith(b'\n') else src + b'\n'], 8)
+    except Exception:
+        return None
+    want = []
+
+    def visit(v):
+        if isinstance(v, parser.Node):
+            for f in v._fields:
+                visit(getattr(v, f))
+        elif isinstance(v, lexer.Token):
+            want.append((type(v).__name__, bytes(v._data) if not isinstance(v, lexer.TokString) else None))
+        elif isinstance(v, (list, tuple)):
+            for x in v:
+                visit(x)
+    visit(L.root)
+    d = tempfile.mkdtemp(prefix='c08p_', dir=tmp)
+    fp = os.path.join(d, 'c.p8')
+    with open(fp, 'wb') as f:
+        f.write(b'pico-8 cartridge // http://www.pico-8.com\nversion 8\n__lua__\n' + (src if src.endswith(b'\n') else src + b'\n') + b'__gfx__\n')
+    buf = io.StringIO()
+    old = util._write_stream
+    util._write_stream = buf
+    try:
+        rc = tool.main(['printast', fp])
+    except SystemExit as e:
+        rc = e.code
+    except Exception as e:  # noqa
+        rc = 'exception %s' % type(e).__name__
+    finally:
+        util._write_stream = old
+    shutil.rmtree(d, ignore_errors=True)
+    text = buf.getvalue()
+    got = []
+    import ast
+    for m in re.finditer(r"(Tok[A-Za-z]+)<(b['\"].*?), line -?\d+ char -?\d+>", text, re.S):
+        try:
+            data = ast.literal_eval(m.group(2))
+        except Exception:
+            data = None
+        got.append((m.group(1), data))
+    want_cmp = [(k, dta) for k, dta in want]
+    got_cmp = [(k, (dta if k != 'TokString' else None)) for k, dta in got]
+    return (rc, len(want_cmp), len(got_cmp), want_cmp == got_cmp, next((i for i, (a, b) in enumerate(zip(want_cmp, got_cmp)) if a != b), -1))
+
+
+def printast_cli(ctx, sources):
+    res = core.parmap(_printast, [(n, s_, ctx.tmp) for n, s_ in sources], procs=16, min_parallel=8)
+    for (name, src), r in zip(sources, res):
+        if r is None:
+            continue
+        ctx.evaluations += 1
+        if r[0] in (0, None) and r[3]:
+            ctx.nontrivial += 1
+            ctx.traces += 1
+        else:
+            ctx.violation('printast/%s' % ('fails' if r[0] not in (0, None) else 'token-not-shown'),
+                          'p8tool printast for %s (rc %s) shows %d tokens where the tree holds %d; first difference at token %d: %r' % (name, r[0], r[2], r[1], r[4], src[:60]),
+                          {'kind': 'printast', 'src': list(src)})
+
+
 def walker_coverage(ctx, sources):
     res = core.parmap(_walk_cov, sources)
     n = 0
@@ -247,6 +321,9 @@ def run(ctx):
     from .c09 import SHORTIF_PROBES
     syn_traces(ctx, srcs + extra + [('shortif-probe%d' % k, x) for k, x in enumerate(SHORTIF_PROBES)])
     walker_coverage(ctx, srcs + progs.program_sources(ctx, rnd, 300 if ctx.quick else 3000))
+    longtok = [('long-tokens', b'a_very_long_identifier_name_of_more_than_32_bytes = "a long string literal with more than 32 bytes in it" + 1234567890.12345\n'
+                               b'another_very_long_identifier_name_of_more_than_32_bytes_b = another_very_long_identifier_name_of_more_than_32_bytes_c\n')]
+    printast_cli(ctx, longtok + srcs + progs.program_sources(ctx, rnd, 60 if ctx.quick else 600))
     b = progs.generate(ctx, 'all', 6 if ctx.quick else 7)[-1]
     ctx.sample({'gen': 'GenProg', 'src': progs.render(b, 'spaced').decode('latin1'), 'deriv': b['deriv']})
 
